@@ -2,6 +2,9 @@ import Srctools.Proofs.C20
 import Srctools.Proofs.C20Tok
 import Srctools.Proofs.C20Img
 import Srctools.Proofs.C20Bvcd
+import Srctools.Proofs.C20Snd
+import Srctools.Proofs.C20SndTok
+import Srctools.Gen.Kvser
 import Srctools.Props.C02
 import Srctools.Gen.C20
 import Srctools.Gen.Tok
@@ -347,6 +350,79 @@ example : decodeScene samplePool (encScene (poolIndex samplePool) sampleScene ++
     = some (quantScene sampleScene) := C20_bvcd _ _ _ C20_bvcd_sample_ok _
 
 end Bvcd
+
+/-! ## soundscripts: `Sound.export` ↔ `Sound.parse_one` -/
+
+namespace Snd
+open C20.Snd C01
+
+/-- OBLIGATION on the current source: the literal text of every write of `Sound.export` and its
+conditions (the layout `exportSnd` models), the keys `Sound.parse_one` looks up, the serialiser
+configuration, and the tokenizer facts the text theorem needs (blank / line feed end a bare
+string, every keyword is a bare word). -/
+theorem C20_gen_snd :
+    Gen.C20.sndPieces = ["\"$\"\n\t{\n", "\tchannel $\n", "\tsoundlevel \"$\"\n", "\tvolume \"$\"\n", "\tpitch \"$\"\n",
+      "\trndwave\n\t\t{\n", "\t\twave \"$\"\n", "\t\t}\n", "\twave \"$\"\n",
+      "\tsoundentry_version 2\n\toperator_stacks\n\t\t{\n", "\t\tstart_stack\n\t\t\t{\n", "\t\t\t}\n",
+      "\t\tupdate_stack\n\t\t\t{\n", "\t\t\t}\n", "\t\tstop_stack\n\t\t\t{\n", "\t\t\t}\n", "\t\t}\n", "\t}\n"] ∧
+    Gen.C20.sndConds = ["self.volume!=(1,1)", "self.pitch!=(100,100)", "len(self.sounds)!=1",
+      "self.force_v2orself.stack_startorself.stack_stoporself.stack_update", "self.stack_start",
+      "self.stack_update", "self.stack_stop"] ∧
+    Gen.C20.sndParseKeys = ["attenuation", "channel", "operator_stacks", "pitch", "rndwave", "soundentry_version",
+      "soundlevel", "start_stack", "stop_stack", "update_stack", "volume", "wave"] ∧
+    Gen.Kvser.cfg = fullCfg ∧
+    sndTablesOK Gen.Tok.tables = true ∧ sndKwOK Gen.Tok.tables = true := by decide
+
+/-- **Soundscript, tree level.** For every sound whose six range ends and channel the reader's
+single-value functions read back (`SndOK`, decided per sound from the enum tables and CPython's
+number texts), `Sound.parse_one` on the Keyvalues tree that `Sound.export` writes returns
+`normSnd s`: a range with equal ends is one value, default volume / pitch become 1.0 / 100.0,
+operator stacks exist exactly for version-2 sounds; name, waves (`wave` or `rndwave` block),
+channel, level and the stack sub-trees unchanged. -/
+theorem C20_sndscript (E : Env) (s : SoundIn) (h : SndOK E s) :
+    parseSnd E (exportSndKV s) = Except.ok (normSnd s) := parseSnd_export E s h
+
+/-- **Soundscript, text level** (composition with the KeyValues parser of C01): the characters
+`Sound.export` writes are tokenized and parsed by `Keyvalues.parse` into a root with exactly the
+tree `exportSndKV s` — bare keywords and channel, plainly quoted ranges, escaped name and waves,
+operator stacks through `Keyvalues.serialise` — hence reading the file gives `normSnd s`. -/
+theorem C20_sndscript_text (T : Tok.Tables) (hE : Tok.escOK T = true) (hK : kvOK T = true)
+    (hT : sndTablesOK T = true) (hk : sndKwOK T = true) (po : ParseOpts) (hesc : po.allowEscapes = true)
+    (hsb : po.singleBlock = false) (fold : Char → List Char) (E : Env) (s : SoundIn)
+    (hs : SndOK E s) (ht : SndTextOK T s) (hkv : okKV po (exportSndKV s) = true) :
+    C01.parse T po fold (exportSndText T fullCfg s) = .root [exportSndKV s] ∧
+    parseSnd E (exportSndKV s) = Except.ok (normSnd s) :=
+  ⟨parse_exportSndText hE hK hT hk po hesc hsb fold s ht hkv, parseSnd_export E s hs⟩
+
+/-! non-vacuity -/
+def sampleEnv : Env :=
+  { fold := fun c => [c],
+    volumes := [("VOL_NORM".toList, "VOL_NORM".toList)],
+    pitches := [("PITCH_NORM".toList, "PITCH_NORM".toList), ("PITCH_LOW".toList, "PITCH_LOW".toList)],
+    levels := [("SNDLVL_NORM".toList, "SNDLVL_NORM".toList), ("SNDLVL_20DB".toList, "SNDLVL_20dB".toList)],
+    channels := ["CHAN_AUTO".toList, "CHAN_VOICE".toList],
+    canon := [("0.5".toList, "0.5".toList), (" 0.5".toList, "0.5".toList), ("95.0".toList, "95.0".toList),
+              (" 95.0".toList, "95.0".toList)] }
+
+def sampleSnd : SoundIn :=
+  { name := "Vo.\"Greeting\"".toList, waves := ["a b.wav".toList, "c\\d.wav".toList],
+    volume := { lo := .num "0.5".toList, hi := .enum "VOL_NORM".toList, same := false }, volDefault := false,
+    pitch := { lo := .num "95.0".toList, hi := .enum "PITCH_LOW".toList, same := true }, pitchDefault := false,
+    level := { lo := .enum "SNDLVL_20dB".toList, hi := .enum "SNDLVL_NORM".toList, same := false },
+    channel := .enum "CHAN_VOICE".toList, forceV2 := false,
+    start := [KV.block "op".toList [KV.leaf "k".toList "v\"q".toList]], update := [], stop := [KV.leaf "x".toList "y".toList] }
+
+theorem C20_sndscript_sample_ok : SndOK sampleEnv sampleSnd := by
+  refine ⟨by unfold envOK; decide +kernel, ?_, ?_, ?_, ?_, ?_, ?_, by rfl⟩ <;>
+    (unfold valOK; decide +kernel)
+
+example : parseSnd sampleEnv (exportSndKV sampleSnd) = Except.ok (normSnd sampleSnd) :=
+  C20_sndscript _ _ C20_sndscript_sample_ok
+
+example : SndTextOK Gen.Tok.tables sampleSnd ∧ okKV {} (exportSndKV sampleSnd) = true := by
+  refine ⟨⟨by decide +kernel, by decide +kernel, by decide +kernel, by decide +kernel⟩, by decide +kernel⟩
+
+end Snd
 
 /-! ## quantised fields -/
 
